@@ -238,6 +238,43 @@ def body(ctx: C.Ctx, proof: C.ProofStatus) -> C.Result:
                 )
             )
     res.count("recompiled", len(comp))
+    # every calendar day a ZID can be allocated for (2000-01-01 .. 2099-12-31): is_zid must recognise the first, a middle and
+    # the last suffix of that day, and the month / leap-day boundaries are recompiled
+    from zorg.shared import dates as zdt
+
+    day = dt.date(2000, 1, 1)
+    bad = []
+    ndays = 0
+    edge_days = []
+    while day.year < 2100:
+        ds = day.strftime("%Y%m%d")[2:]
+        ndays += 1
+        for suf in ("00", "zz", "000", "zzz"):
+            if not zdt.is_zid(f"{ds}#{suf}"):
+                bad.append(f"{ds}#{suf}")
+        nxt = day + dt.timedelta(days=1)
+        if nxt.month != day.month and (day.month in (2, 12) or day.year % 10 == 0):
+            edge_days += [day] + ([nxt] if nxt.year < 2100 else [])
+        day = nxt
+    res.evaluations += ndays
+    res.count("is_zid_days", ndays)
+    for z in bad[:3]:
+        res.failures.append(C.Failure(f"is_zid rejects {z}, a ZID the allocator hands out for that day", {"kind": "is_zid", "zid": z}))
+    lines, exp = ["# T", ""], []
+    for d in edge_days:
+        zid = d.strftime("%Y%m%d")[2:] + "#" + rng.choice(["00", "zz", "0A0"])
+        lines.append(f"{rng.choice(kinds)} {zid} edge day w{len(exp)}")
+        exp.append((zid, d))
+    p = zdir / "edges.zo"
+    p.write_text("\n".join(lines) + "\n")
+    page = walk_zorg_page(zdir, p)
+    got = [(n.zid, n.create_date) for n in page.notes]
+    res.evaluations += len(exp)
+    res.count("recompiled_edge_days", len(exp))
+    if page.has_errors or got != exp:
+        k = next((i for i, (a, b_) in enumerate(zip(got, exp)) if a != b_), 0)
+        res.failures.append(C.Failure(f"ZID of a month / leap-day boundary not recognised when compiled again: wrote {exp[k][0]}, compiled {got[k] if k < len(got) else None}",
+                                      {"kind": "recompile", "line": lines[2 + k], "zid": exp[k][0], "suffix_len": len(exp[k][0]) - 7}))
     return res
 
 
